@@ -38,6 +38,9 @@ def records_case(draw, writer):
     descs = [draw(gen.descriptor_spec(1, None, max_fields=4)) for _ in range(nd)]
     n = draw(st.integers(1, 5))
     recs = [draw(gen.record_spec(1, desc=descs[draw(st.integers(0, nd - 1))])) for _ in range(n)]
+    if writer in ("csv", "line") and draw(st.integers(0, 5)) == 0 and len(recs) >= 2:
+        # a grouped record (flat view over two members) among the plain ones
+        recs.insert(draw(st.integers(0, len(recs))), {"grouped": [recs[0], recs[-1]], "name": draw(gen.type_name())})
     allnames = sorted({f for d in descs for _, f in d[1]})
     pool = allnames + ["nope", "_source", "_generated"]
     case = {
@@ -88,22 +91,42 @@ def records_case(draw, writer):
 
 def selected(rec, fields, exclude):
     exclude = exclude or []
-    slots = list(rec.__slots__)
+    if hasattr(rec, "fieldname_to_record"):
+        # flat view of a grouped record: fields in order of first appearance, first member wins
+        slots = []
+        for r in rec.records:
+            for k in list(r.__slots__):
+                if k not in slots:
+                    slots.append(k)
+        slots = [k for k in slots if not k.startswith("_")] + [k for k in slots if k.startswith("_")] if False else slots
+    else:
+        slots = list(rec.__slots__)
     if fields:
         return [k for k in fields if k in slots and k not in exclude]
     return [k for k in slots if k not in exclude]
 
 
+def _build_one(s):
+    from flow.record import GroupedRecord
+
+    if "grouped" in s:
+        return GroupedRecord(s["name"], [gen.build_record(x) for x in s["grouped"]])
+    return gen.build_record(s)
+
+
 def build(case, ctx):
-    built = impl(lambda: [gen.build_record(s) for s in case["recs"]])
+    built = impl(lambda: [_build_one(s) for s in case["recs"]])
     if not built.ok:
         ctx.cls("discarded:constructor-raised:" + built.type)
         return None
     labels = set()
     for s in case["recs"]:
+        if "grouped" in s:
+            labels.add("grouped-record")
+            continue
         gen.classify_record(s, labels)
     ctx.cls(*labels)
-    if any(v is not None for s in case["recs"] for v in s["vals"]):
+    if any(v is not None for s in case["recs"] if "grouped" not in s for v in s["vals"]):
         ctx.nontriv()
     return built.value
 
